@@ -56,7 +56,8 @@ type JMethod struct {
 	Body        []string `json:"body,omitempty"` // statement lines, already indented relative to the body
 	NoBody      bool     `json:"no_body,omitempty"`
 	IsCtor      bool     `json:"ctor,omitempty"`
-	Line        int      `json:"line"` // line of the declaration (first annotation or signature)
+	TypeParams  string   `json:"type_params,omitempty"` // "<T>": a method with type parameters of its own
+	Line        int      `json:"line"`                  // line of the declaration (first annotation or signature)
 }
 
 type JFile struct {
@@ -174,6 +175,9 @@ func (f *JFile) Render() {
 		s := "    "
 		if m.Modifiers != "" {
 			s += m.Modifiers + " "
+		}
+		if m.TypeParams != "" {
+			s += m.TypeParams + " "
 		}
 		if !m.IsCtor {
 			s += m.Ret + " "
@@ -721,10 +725,17 @@ func (g *gctx) genFile(fi int) *JFile {
 	}
 	// methods
 	for mi, mn := range ci.methods {
+		defaultThis := false
 		m := JMethod{Name: mn, Modifiers: "public"}
 		if f.Kind == "interface" {
 			m.Modifiers = ""
 			m.NoBody = true
+			if t.Bool(1, 3) {
+				// a default method (Spring-Data style) calling through this
+				m.Modifiers = "default"
+				m.NoBody = false
+				defaultThis = true
+			}
 		} else if t.Bool(1, 5) {
 			m.Modifiers = g.pick([]string{"private", "protected", "public static", "static public", "public final", "public synchronized"})
 		}
@@ -870,6 +881,12 @@ func (g *gctx) genFile(fi int) *JFile {
 				maxStmts = 9
 			}
 			m.Body = g.genBody(fi, fieldTypes, locals, need, 0, maxStmts)
+			if defaultThis {
+				m.Body = append([]string{"this." + g.pick(methodNames) + "(1).go();", "this.toString();"}, m.Body...)
+			}
+			if t.Bool(1, 10) {
+				m.TypeParams = g.pick([]string{"<T>", "<T extends Comparable<T>>", "<K, V>"})
+			}
 			if m.Ret != "void" {
 				m.Body = append(m.Body, "return "+g.valueOf(m.Ret, locals, fieldTypes)+";")
 			}
